@@ -32,6 +32,7 @@ TSet(a) == <<"set", a>>  TMap(k, v) == <<"map", k, v>>  TBigMap(k, v) == <<"big_
 TTicket(a) == <<"ticket", a>>
 I(n) == <<"i", n>>  B(b) == <<"bool", b>>
 IsNum(t) == t[1] \in {"int", "nat", "mutez", "timestamp"}
+NativeMax == 32767
 MutezMax == 2147483647   \* native instance: the real limit 2^63-1 is handled by the BigInt arithmetic family (C16)
 
 \* ===== type predicates =====
@@ -100,7 +101,7 @@ HasType(v, t) ==
   CASE t[1] = "int" \/ t[1] = "timestamp" -> v[1] = "i"
     [] t[1] = "nat" \/ t[1] = "mutez" -> v[1] = "i" /\ v[2] >= 0
     [] t[1] = "string" -> v[1] = "s"
-    [] t[1] = "bytes" -> v[1] = "b"
+    [] t[1] = "bytes" -> v[1] = "b" \/ v[1] = "h"
     [] t[1] = "bool" -> v[1] = "bool"
     [] t[1] = "unit" -> v = <<"unit">>
     [] t[1] = "never" -> FALSE
@@ -295,7 +296,9 @@ Ty(i, ts) ==
 \* ==========================================================================
 Ok(st) == <<"ok", st>>
 Err(k) == <<"err", <<k>>>>
-SymHash(alg, bytes) == <<"b", <<"#hash", alg, bytes>>>>       \* uninterpreted digest (interpreted by the harness)
+SymHash(alg, v) == <<"h", alg, v>>       \* uninterpreted digest of the bytes value v (interpreted by the harness)
+DigestLen(alg) == IF alg = "SHA512" THEN 64 ELSE 32
+IsSym(v) == v[1] = "h"
 RECURSIVE Run(_, _, _, _), RunSeq(_, _, _, _), MapL(_, _, _, _, _, _), IterL(_, _, _, _, _), MapM(_, _, _, _, _, _, _),
           LoopB(_, _, _, _), LoopL(_, _, _, _)
 RunSeq(code, st, e, f) ==
@@ -332,7 +335,11 @@ Run(i, st, e, f) ==
   LET op == i[1]
       a == st[1]  b == st[2]  c == st[3]
       r1 == Drop(st, 1) r2 == Drop(st, 2) r3 == Drop(st, 3) IN
-  CASE op = "PUSH" -> Ok(<<S(i[2], i[3])>> \o st)
+  CASE op \in {"ADD", "SUB", "MUL", "LSL"} /\ (Abs(V(a)[2]) > NativeMax \/ Abs(V(b)[2]) > NativeMax \/ (op = "LSL" /\ V(b)[2] > 14 /\ V(b)[2] <= 256))
+         -> Err("native")       \* outside the range of this native-integer instance (big integers: BigInt family, C16)
+    [] op \in {"CONCAT", "SLICE", "COMPARE"} /\ (\E k \in 1..Min2(3, Len(st)) : IsSym(V(st[k])))
+         -> Err("symbolic")     \* digests are uninterpreted: their bytes cannot be inspected in the model
+    [] op = "PUSH" -> Ok(<<S(i[2], i[3])>> \o st)
     [] op = "DROP" -> Ok(Drop(st, i[2]))
     [] op = "DUP" -> Ok(<<st[i[2]]>> \o st)
     [] op = "SWAP" -> Ok(<<b, a>> \o r2)
@@ -407,7 +414,8 @@ Run(i, st, e, f) ==
          IF V(b)[2] = 0 THEN Ok(<<S(rt, <<"none">>)>> \o r2)
          ELSE LET d == EDivMod(V(a)[2], V(b)[2]) IN Ok(<<S(rt, <<"some", <<"p", I(d[1]), I(d[2])>>>>)>> \o r2)
     [] op = "LSL" -> IF V(b)[2] > 256 THEN Err("shift") ELSE Ok(<<S(TNat, I(V(a)[2] * Pow2(V(b)[2])))>> \o r2)
-    [] op = "LSR" -> IF V(b)[2] > 256 THEN Err("shift") ELSE Ok(<<S(TNat, I(V(a)[2] \div Pow2(V(b)[2])))>> \o r2)
+    [] op = "LSR" -> IF V(b)[2] > 256 THEN Err("shift")
+                     ELSE Ok(<<S(TNat, I(IF V(b)[2] > 30 THEN 0 ELSE V(a)[2] \div Pow2(V(b)[2])))>> \o r2)    \* native values are below 2^31
     [] op = "AND" -> IF T(a) = TBool THEN Ok(<<S(TBool, B(V(a)[2] /\ V(b)[2]))>> \o r2)
                      ELSE IF V(a)[2] >= 0 THEN Ok(<<S(TNat, I(BitOp("and", V(a)[2], V(b)[2])))>> \o r2)
                      ELSE \* int AND nat with a negative int: two's complement, (-x) = ~(x-1):  a & b = b & ~(|a|-1) = b - (b & (|a|-1))
@@ -415,7 +423,7 @@ Run(i, st, e, f) ==
     [] op = "OR" -> IF T(a) = TBool THEN Ok(<<S(TBool, B(V(a)[2] \/ V(b)[2]))>> \o r2) ELSE Ok(<<S(TNat, I(BitOp("or", V(a)[2], V(b)[2])))>> \o r2)
     [] op = "XOR" -> IF T(a) = TBool THEN Ok(<<S(TBool, B(V(a)[2] # V(b)[2]))>> \o r2) ELSE Ok(<<S(TNat, I(BitOp("xor", V(a)[2], V(b)[2])))>> \o r2)
     [] op = "NOT" -> IF T(a) = TBool THEN Ok(<<S(TBool, B(~V(a)[2]))>> \o r1) ELSE Ok(<<S(TInt, I(-V(a)[2] - 1))>> \o r1)
-    [] op = "SIZE" -> Ok(<<S(TNat, I(Len(V(a)[2])))>> \o r1)
+    [] op = "SIZE" -> Ok(<<S(TNat, I(IF IsSym(V(a)) THEN DigestLen(V(a)[2]) ELSE Len(V(a)[2])))>> \o r1)
     [] op = "CONCAT" -> IF T(a)[1] = "list" THEN Ok(<<S(T(a)[2], <<IF T(a)[2] = TStr THEN "s" ELSE "b", ConcatAll(V(a)[2])>>)>> \o r1)
                         ELSE Ok(<<S(T(a), <<V(a)[1], V(a)[2] \o V(b)[2]>>)>> \o r2)
     [] op = "SLICE" -> LET off == V(a)[2] len == V(b)[2] s == V(c)[2] IN
@@ -430,7 +438,7 @@ Run(i, st, e, f) ==
     [] op = "GET_AND_UPDATE" -> Ok(<<S(T(b), MapGet(T(a), V(c)[2], V(a))),
                                      S(T(c), <<"map", IF V(b)[1] = "none" THEN MapDel(T(a), V(c)[2], V(a)) ELSE MapPut(T(a), V(c)[2], V(a), V(b)[2])>>)>> \o r3)
     [] op \in EnvInstrs -> IF op \in DOMAIN e THEN Ok(<<S(EnvInstrType(op), e[op])>> \o st) ELSE Err("noenv")
-    [] op \in HashInstrs -> Ok(<<S(TBytes, SymHash(op, V(a)[2]))>> \o r1)
+    [] op \in HashInstrs -> Ok(<<S(TBytes, SymHash(op, V(a)))>> \o r1)
     [] op = "TICKET" -> IF V(b)[2] = 0 THEN Ok(<<S(TOpt(TTicket(T(a))), <<"none">>)>> \o r2)
                         ELSE IF "SELF_ADDRESS" \notin DOMAIN e THEN Err("noenv")
                         ELSE Ok(<<S(TOpt(TTicket(T(a))), <<"some", <<"t", e["SELF_ADDRESS"], V(a), V(b)[2]>>>>)>> \o r2)
